@@ -1,4 +1,4 @@
-import CTV.Lemmas.ChainCheck
+import CTV.Lemmas.ChainComplete
 /-!
 # C02 — only chains that lead, in submitted order, to a trusted root are admitted
 
@@ -155,6 +155,138 @@ example : validateChain [exR] exSig exOpts [some exI, some exL] = .error .notEqu
 example : validateChain [exR] exSig { exOpts with notAfterLimit := some 1000 } [some exL, some exI] = .error .notAfterLimit := by decide
 example : validateChain [exR] exSig exOpts [some exL, none] = .error .parse := by decide
 example : Coherent ([exL, exI] ++ [exR]) := by unfold Coherent; decide
+
+/-! ## Completeness -/
+
+/- FULL: for every pool, oracle, options and submitted list `l :: rest`:
+     `LeafOK o l → Admissible roots sigOK (l :: rest) → ∃ p, validateChain roots sigOK o ((l :: rest).map some) = .ok p`
+   i.e. the converse of `admit_sound` with no side condition.  This is FALSE of the code (and of the model):
+   the search tries key-identifier matches before names and never falls back (an AKI that points at a
+   certificate with another name hides the real issuer), it caches the chains found through a candidate
+   under the first prefix that reached it (same-subject certificates), it gives up after 100 signature
+   checks, it never repeats a certificate, and `Verify` answers `[[leaf]]` at once when the leaf is itself
+   trusted.  The harness counts the real behaviour at those points as `obs:valid-path-rejected:*`.
+   Proved below: the statement under exactly those exclusions (`SideConditions`), each one named. -/
+
+/-- **admit_complete_partial.** A submission that parses, passes the leaf filters and is a valid linear path
+ending in, or directly below, the trusted pool is admitted — provided the named side conditions hold: no
+repeated certificate, distinct subjects, consistent authority key identifiers, `2·n + 2 ≤ 100` signature
+checks, only the last certificate trusted, records determined by their bytes. -/
+theorem admit_complete_partial (roots : List Cert) (sigOK : SigOracle) (o : Opts) (l : Cert) (rest : List Cert)
+    (hleaf : LeafOK o l) (hadm : Admissible roots sigOK (l :: rest)) (hs : SideConditions roots (l :: rest)) :
+    ∃ p, validateChain roots sigOK o ((l :: rest).map some) = .ok p := by
+  have hnd := hs.noRepeat
+  have hndRest : (rest.map (·.id)).Nodup := by
+    simp only [List.map_cons, List.nodup_cons] at hnd; exact hnd.2
+  have hpool : mkPool rest = rest := mkPool_nodup hndRest
+  have hbud := hs.budget
+  simp only [List.length_cons] at hbud
+  -- the leaf is itself trusted and submitted alone: Verify answers [[l]]
+  have alone : poolContains roots l = true → rest = [] → ∃ p, validateChain roots sigOK o ((l :: rest).map some) = .ok p := by
+    intro hc hr
+    subst hr
+    have hv : verify ⟨roots, mkPool [], sigOK⟩ l = .ok [[l]] := by
+      unfold verify
+      simp [isValid, Gen.isValidNotCA, hc]
+    exact validate_of_verify (T := [l]) hleaf hv (by simp) (chainsEquivalent_of (by simp) (Or.inl rfl) (by simp))
+  -- case A: the last submitted certificate is in the pool
+  have caseA : ∀ (r z : Cert), r ∈ roots → (l :: rest).getLast? = some z → z.id = r.id → Linked (Link sigOK) (l :: rest) →
+      (∀ x ∈ (l :: rest).tail.dropLast, IsInterCA x) → ∃ p, validateChain roots sigOK o ((l :: rest).map some) = .ok p := by
+    intro r z hr hz hid hl hca
+    by_cases hrest : rest = []
+    · subst hrest
+      have : z = l := by simpa using hz.symm
+      subst this
+      exact alone (poolContains_iff.2 ⟨r, hr, hid.symm⟩) rfl
+    · have hzmem : z ∈ l :: rest := List.mem_of_getLast? hz
+      have hzr : z = r := hs.coherent z (List.mem_append_left _ hzmem) r (List.mem_append_right _ hr) hid
+      subst hzr
+      have hnot : poolContains roots l = false := hs.onlyLastTrusted l (by
+        obtain ⟨y, ys, rfl⟩ := List.exists_cons_of_ne_nil hrest
+        simp [List.dropLast])
+      let E : Env := ⟨roots, rest, sigOK⟩
+      have htrack : OnTrack E (l :: rest) := by
+        apply onTrack_of E hs.rootsPool hndRest hs.distinctSubjects (l :: rest) hl
+        · intro c hc
+          exact hs.akiConsistent c (mem_of_mem_dropLast hc)
+        · intro x hx
+          exact ⟨mem_of_mem_dropLast hx, hca x hx⟩
+        · intro r' hr' _
+          rw [hz] at hr'; cases hr'; exact hr
+      have hfind := search_finds E rest [l] l ⟨0, []⟩ fuel rfl (by simpa using hnd) htrack hrest rfl
+        (by simp; omega) (by simp [fuel, Gen.maxChainSignatureChecks]; omega)
+      obtain ⟨chains, hv, hT⟩ := verify_of_search (E := E) hnot hfind
+      have hv' : verify ⟨roots, mkPool rest, sigOK⟩ l = .ok chains := by rw [hpool]; exact hv
+      exact validate_of_verify hleaf hv' hT (chainsEquivalent_of (by simp; omega) (Or.inl rfl) (by simp))
+  cases hadm with
+  | endsInPool r z hr hz hid hl hca => exact caseA r z hr hz hid hl hca
+  | belowPool r hr hl hca =>
+    by_cases hin : r.id ∈ (l :: rest).map (·.id)
+    · -- the issuing root is itself submitted: it can only be the last certificate
+      obtain ⟨c, hc, hcid⟩ := List.mem_map.1 hin
+      have hpc : poolContains roots c = true := poolContains_iff.2 ⟨r, hr, hcid.symm⟩
+      have hlast : (l :: rest).getLast? = some c := by
+        rcases mem_cases_head_inner_last (l :: rest) c hc with e | e | e
+        · -- c is the head
+          by_cases hrest : rest = []
+          · subst hrest; simpa using e
+          · exfalso
+            have : c ∈ (l :: rest).dropLast := by
+              obtain ⟨y, ys, rfl⟩ := List.exists_cons_of_ne_nil hrest
+              simp at e; subst e; simp [List.dropLast]
+            rw [hs.onlyLastTrusted c this] at hpc; cases hpc
+        · exfalso
+          have : c ∈ (l :: rest).dropLast := by
+            simp only [List.tail_cons] at e
+            cases rest with
+            | nil => simp at e
+            | cons y ys => simp only [List.dropLast_cons₂]; exact List.mem_cons_of_mem _ e
+          rw [hs.onlyLastTrusted c this] at hpc; cases hpc
+        · exact e
+      exact caseA r c hr hlast hcid (linked_prefix _ _ hl) (fun x hx => hca x (mem_of_mem_dropLast hx))
+    · by_cases hc : poolContains roots l = true
+      · by_cases hrest : rest = []
+        · exact alone hc hrest
+        · exfalso
+          have : l ∈ (l :: rest).dropLast := by
+            obtain ⟨y, ys, rfl⟩ := List.exists_cons_of_ne_nil hrest
+            simp [List.dropLast]
+          rw [hs.onlyLastTrusted l this] at hc; cases hc
+      · have hnot : poolContains roots l = false := by simpa using hc
+        let E : Env := ⟨roots, rest, sigOK⟩
+        have hndT : (([l] ++ (rest ++ [r])).map (·.id)).Nodup := by
+          have : ((l :: rest) ++ [r]).map (·.id) = (l :: rest).map (·.id) ++ [r.id] := by simp
+          simp only [List.singleton_append, ← List.cons_append]
+          rw [this, List.nodup_append]
+          refine ⟨hnd, by simp, ?_⟩
+          intro a ha b hb e
+          simp at hb; subst hb; subst e
+          exact hin ha
+        have htrack : OnTrack E (l :: (rest ++ [r])) := by
+          apply onTrack_of E hs.rootsPool hndRest hs.distinctSubjects (l :: (rest ++ [r])) (by simpa using hl)
+          · intro c hc'
+            apply hs.akiConsistent c
+            have : (l :: (rest ++ [r])).dropLast = l :: rest := by
+              rw [← List.cons_append, List.dropLast_concat]
+            rwa [this] at hc'
+          · intro x hx
+            have : (l :: (rest ++ [r])).tail.dropLast = rest := by simp [List.dropLast_concat]
+            rw [this] at hx
+            exact ⟨hx, hca x (by simpa using hx)⟩
+          · intro r' hr' _
+            have : (l :: (rest ++ [r])).getLast? = some r := by
+              rw [← List.cons_append]; exact List.getLast?_concat
+            rw [this] at hr'; cases hr'; exact hr
+        have hfind := search_finds E (rest ++ [r]) [l] l ⟨0, []⟩ fuel rfl hndT htrack (by simp) rfl
+          (by simp; omega) (by simp [fuel, Gen.maxChainSignatureChecks]; omega)
+        obtain ⟨chains, hv, hT⟩ := verify_of_search (E := E) hnot hfind
+        have hv' : verify ⟨roots, mkPool rest, sigOK⟩ l = .ok chains := by rw [hpool]; exact hv
+        exact validate_of_verify hleaf hv' hT (chainsEquivalent_of (by simp; omega) (Or.inr (by simp)) (by simp))
+
+example : SideConditions [exR] [exL, exI] ∧ Admissible [exR] exSig [exL, exI] ∧ LeafOK exOpts exL := by
+  refine ⟨⟨by decide, by decide, by unfold DistinctSubjects; decide, by unfold AkiConsistent; decide, by decide, by decide,
+    by unfold Coherent; decide⟩, ?_, (leafFilters_iff _ _).1 (by decide)⟩
+  exact .belowPool exR (by simp) ⟨⟨rfl, by decide⟩, ⟨rfl, by decide⟩, trivial⟩ (by intro x hx; simp at hx; subst hx; exact ⟨rfl, rfl⟩)
 
 /-! ## The NotAfter window (regenerated conditions) -/
 
